@@ -625,13 +625,13 @@ example : getShutdownRefused 3 Flags.none false false false = false ∧ getShutd
     signer_maybe_unblocked releases our tx_signatures — whatever the signer state; they are owed to monitor_updating_restored,
     which withholds them only for a pending signer -/
 theorem tx_signatures_wait_for_monitor_update (signerPending : Bool) :
-    txSignaturesHeld true spliceCsMarksTxSignaturesPending = true ∧
+    txSignaturesHeld true spliceCsMarksTxSignaturesPending signerPending = true ∧
     signerUnblockReleasesTxSignatures true signerPending = false ∧
     (signerUnblockReleasesTxSignatures false signerPending = true → signerPending = false) ∧
     restoredWithholdsTxSignatures false = false := by
   cases signerPending <;> decide
 
-example : txSignaturesHeld false true = false ∧ signerUnblockReleasesTxSignatures false false = true := by decide
+example : txSignaturesHeld false true false = false ∧ signerUnblockReleasesTxSignatures false false = true := by decide
 
 end CloseGate
 end Ldk.C09
